@@ -1,6 +1,8 @@
 import SciVerif.Lemmas.C13c
 import SciVerif.Lemmas.C14c
 import SciVerif.Lemmas.C14d
+import SciVerif.Lemmas.C14e
+import SciVerif.Lemmas.C14f
 
 /-!
 # C14 — The last assignment wins, in the units and type of the definition
@@ -291,6 +293,39 @@ theorem C14_parse_refines_spec (P : Params) (nds : List Node) (hwf : ∀ nd ∈ 
     rw [hpaths, hnode] at hper
     have := (hsim.trans hper).bind checkS checkS (fun x => ResEq.refl _)
     simpa [checkS, bind, Except.bind] using this
+
+/-- **With tables.**  A table line is replaced by the column nodes `TableNode.parse` returns before
+    anything else happens (`expandAll`).  If every table expands, the model's parse of the program and
+    the specification on the abstract lines of the EXPANDED program both succeed with the same
+    parameters or both fail; if a table does not expand (bad header, wrong number of cells, no rows),
+    the parse fails. -/
+theorem C14_parse_refines_spec_tables (P : Params) (nds : List Node)
+    (hwf : ∀ nd ∈ nds, nd.kind ≠ .table → NodeWF nd)
+    (hcols : ∀ nd ∈ nds, nd.kind = .table → ∀ cols, P.expandTable nd = .ok cols → ∀ c ∈ cols, NodeWF c) :
+    (∀ nds', expandAll P nds = .ok nds' →
+      ResEq ((parseNodes P nds).map (List.map toS))
+        (specRunG (castInterp P) P.conv P.unitKnown (nds'.map toALine))) ∧
+    (∀ e, expandAll P nds = .error e → ∃ e', parseNodes P nds = .error e') := by
+  constructor
+  · intro nds' hex
+    have hwf' := expandAll_wf P nds nds' hwf hcols hex
+    have hplain : ∀ nd ∈ nds', nd.kind ≠ .table := fun nd h => (hwf' nd h).1
+    have : parseNodes P nds = parseNodes P nds' := by
+      simp only [parseNodes, runNodes_expandAll P nds nds' {} hex, runNodes_plain P nds' {} hplain]
+    rw [this]
+    exact C14_parse_refines_spec P nds' hwf'
+  · intro e hex
+    obtain ⟨e', he'⟩ := runNodes_expandAll_error P nds {} e hex
+    exact ⟨e', by simp [parseNodes, he', bind, Except.bind]⟩
+
+/-- for the driver's parameters the column hypothesis holds: whatever `TableNode.parse` returns are
+    well-formed typed nodes, so programs with tables need no extra assumption -/
+theorem C14_parse_refines_spec_tables_driver (tbl : List UnitRow) (nds nds' : List Node)
+    (hwf : ∀ nd ∈ nds, nd.kind ≠ .table → NodeWF nd) (hex : expandAll (mkParams tbl) nds = .ok nds') :
+    ResEq ((parseNodes (mkParams tbl) nds).map (List.map toS))
+      (specRunG (castInterp (mkParams tbl)) (mkParams tbl).conv (mkParams tbl).unitKnown (nds'.map toALine)) :=
+  (C14_parse_refines_spec_tables (mkParams tbl) nds hwf
+    (fun nd _ _ cols hc => expandTable_cols_wf tbl nd cols hc)).1 nds' hex
 
 example : NodeWF { kind := .mod, name := some ['a'], raw := some (.text ['0']) } :=
   ⟨by decide, fun _ => ⟨rfl, rfl⟩, fun t h => by cases h⟩
